@@ -1,6 +1,7 @@
 #include "static_variants.hpp"
 namespace {
 #if VF_GROUP == 0
+VF_EF_HUGE(uint32_t, 8, float);
 VF_EF(uint32_t, 2, float);
 VF_EF(uint64_t, 1, float);
 #endif
